@@ -482,6 +482,13 @@ class Doist(tyming.Tymist):
         if marker in deeds:  # interrupted recur so undo rotation to restore enter order
             deeds.rotate(-(deeds.index(marker) + 1))
 
+        # deeds extended during a recur sit before deeds not yet run in that recur
+        # so restore enter order which is the order of .doers
+        order = {id(doer): i for i, doer in enumerate(self.doers)}
+        ordered = sorted(deeds, key=lambda deed: order.get(id(deed[2]), -1))
+        deeds.clear()
+        deeds.extend(ordered)
+
         while(deeds):  # .close each remaining dog in deeds in reverse order
             dog, retime, doer = deeds.pop()  # pop it off in reverse (right side)
             if not dog:  # marker deed
@@ -535,6 +542,10 @@ class Doist(tyming.Tymist):
                 rdeeds.append((dog, retyme, doer))  # add to removal deque
             else:  # keep deed do not remove and close
                 deeds.append((dog, retyme, doer))  # reappend
+
+        # enter order is order in .doers so exit closes in reverse enter order
+        order = {id(doer): i for i, doer in enumerate(self.doers)}
+        rdeeds = deque(sorted(rdeeds, key=lambda deed: order[id(deed[2])]))
 
         for doer in rdoers:  # update .doers to remove rdoers
             self.doers.remove(doer)
@@ -1368,6 +1379,13 @@ class DoDoer(Doer):
         if marker in deeds:  # interrupted recur so undo rotation to restore enter order
             deeds.rotate(-(deeds.index(marker) + 1))
 
+        # deeds extended during a recur sit before deeds not yet run in that recur
+        # so restore enter order which is the order of .doers
+        order = {id(doer): i for i, doer in enumerate(self.doers)}
+        ordered = sorted(deeds, key=lambda deed: order.get(id(deed[2]), -1))
+        deeds.clear()
+        deeds.extend(ordered)
+
         while(deeds):  # .close each remaining dog in deeds in reverse order
             dog, retime, doer = deeds.pop()  # pop it off in reverse (right side)
             if not dog:  # marker deed
@@ -1421,6 +1439,10 @@ class DoDoer(Doer):
                 rdeeds.append((dog, retyme, doer))  # add to removal deque
             else:  # keep deed do not remove and close
                 deeds.append((dog, retyme, doer))  # reappend
+
+        # enter order is order in .doers so exit closes in reverse enter order
+        order = {id(doer): i for i, doer in enumerate(self.doers)}
+        rdeeds = deque(sorted(rdeeds, key=lambda deed: order[id(deed[2])]))
 
         for doer in rdoers:  # update .doers to remove rdoers
             self.doers.remove(doer)
